@@ -321,7 +321,7 @@ func runC02(e *Env) {
 				e.R.Transition(int64(len(insts)))
 			}
 			if nt {
-				e.R.NonTrivial(name + string(key))
+				e.R.NonTrivialN(1) // histories of one part are distinct by construction
 			}
 		})
 		e.R.AddPart(ev.Part{Name: name, Enumerated: fmt.Sprintf("all histories of length <= %d over %d timed shapes, tracks %v", maxLen, n, tracks), Executions: int64(total * len(tracks)), Exhaustive: true})
